@@ -78,6 +78,12 @@ CLAIMS["C08"] = dict(
    note=TRUST + ". Assumed: bbolt runs each registered commit handler once, in order, after a successful commit and never after a rollback; a change state's context, kind, id, initial and final state and a store's parent are not rewritten once filled (declared immutable; the three fill sites init / initFromChild / loadFinalState are waived as two-step construction); listeners and constraints do not themselves register commit handlers unless their contract says so. Not proved: that handleCommit runs each commit action once (dynamic calls through a slice of functions have no contract); DbImpl.Batch (registers no tx-complete listener at all); ordering/timing of spawned deliveries.",
    technique="contract-based deductive verification: ghost registration log with private-ghost frames, postconditions on the real CRUD functions, recursive count spec for adapters, SMT")
 
+CLAIMS["C01"] = dict(
+   text="The compositional (per-node) half of filter evaluation, proved on the real Eval bodies of 42 node methods of package ast: each typed node evaluates to the documented function of what its operands evaluate to on the row the symbol table stands on (operands are represented by interface-level spec functions nodeSem, sNull/sVal, iNull/iVal, fNull/fVal, dNull/dInst). Not / and / or; boolean = and !=; int64, float64, datetime and string comparisons with the null rule (a null operand makes every comparison false except != - true exactly when one side is null - and not-contains) and the six comparison operators via one spec cmpOp; contains / not contains; between as lower-inclusive upper-exclusive with null making it false (all three types); in [array] as 'left not null and equal to some non-null element' (loop invariants, four types); int-to-float widening and its string pass-through; constants; symbol nodes return exactly what the symbol table answers (null boolean is false; numeric symbols render decimal strings); x = null / x != null; the string function node maps null to null; count = number of elements of the opened cursor, isEmpty = none; the query node evaluates its predicate. The typed dispatch (BinaryExprNode.handle*Ops) is proved to build the comparison node of the operand type with the same operator and the same operands (int vs float mixes widen the int side; icontains becomes contains on case-mapped operands). The bolt row cursor (rowCursorImpl.EvalString/Int64/Float64/Bool/Datetime/IsNil) is proved to return the FieldTo* decoding (C13) of what the store symbol evaluates to on the current row, null for an unknown symbol. The scanners' use of the filter (count and window relative to nodeSem) is C02.",
+   design="5/C01",
+   note=TRUST + ". NOT covered, so a violation there is not reported: anyOf / allOf (their predicate is evaluated while a set cursor moves under it; the interface-level model 'EvalBool is a function of node and row' does not capture the cursor position, so no claim is made rather than an unsound one), the index-seek shortcut's equivalence with the scan, sub-query cursors, dotted (linked) symbol resolution, set-function hoisting (MoveUpTree), and that the interface-level spec functions of a composite node agree with its own postcondition (the structural induction over the tree is not mechanised). Assumed: symbol table answers are deterministic per row; strings.Contains/ToUpper, strconv formatting as uninterpreted functions; floats as reals.",
+   technique="contract-based deductive verification: postconditions stating each node's denotation over interface-level spec functions of its operands, loop invariants, SMT")
+
 NA = {
  "C12": "not applicable to contract-based verification of the repository's Go code: how 'a and b or c', parentheses, keyword case and whitespace group is decided by ANTLR's ATN interpreter (AdaptivePredict) running the serialized grammar embedded in zitiql_parser.go; the generated Go functions are a table-driven shell around it, so no precondition/postcondition on a repository function can state 'the tree for this text is that tree', and the ANTLR tool needed to regenerate or analyse the grammar is not available here. (The listener half - each connective node evaluates as its connective - is contract-shaped and is part of the C10 sweep's dispatch contracts.) Observed while reading: 'a and b or c' groups as 'a and (b or c)'; recorded in DESIGN.md section 7 for the maintainers.",
  "C17": "not applicable: equality of the whole database across close/rename/reopen, what concurrent transactions observe during the swap, and restore listeners firing after the swap are file-system and schedule properties of bbolt and the OS (os.Rename, file locks, goroutines); contracts over single calls of repository functions cannot express them, and the only contract-shaped fragment (DbImpl.GetTimelineId's flag logic) does not decide the property.",
